@@ -606,11 +606,9 @@ def _cmp(it, a, info):
         cands = it.prog.traitm.get((tr, rt, 'eq'))
         if cands:
             return z3.simplify(z3.Not(it.run_fn(it._pick_trait(cands, info, a), [a[0], a[1]])))
-    if isinstance(x, Enum) and isinstance(y, Enum) and not x.fields and not y.fields:
-        if m == 'eq':
-            return z3.BoolVal(x.idx == y.idx)
-        if m == 'ne':
-            return z3.BoolVal(x.idx != y.idx)
+    if isinstance(x, Enum) and isinstance(y, Enum) and m in ('eq', 'ne'):
+        e = struct_eq(it, x, y)
+        return e if m == 'eq' else z3.simplify(z3.Not(e))
     if isinstance(x, (Slice, Buf)) or isinstance(y, (Slice, Buf)):
         e = s_eq(as_slice(it, x), as_slice(it, y))
         if m == 'eq':
@@ -650,6 +648,28 @@ def _cmp(it, a, info):
         e = z3.simplify(z3.And(*cs)) if cs else z3.BoolVal(True)
         return e if m == 'eq' else z3.simplify(z3.Not(e))
     raise Unsupported('comparison %s on %r, %r' % (info['text'], x, y))
+
+
+def struct_eq(it, x, y):
+    """derived PartialEq: structural equality as a z3 Bool"""
+    x, y = deref(it, x), deref(it, y)
+    if isinstance(x, Enum) and isinstance(y, Enum):
+        if x.idx != y.idx or len(x.fields) != len(y.fields):
+            return z3.BoolVal(False)
+        cs = [struct_eq(it, f, g) for f, g in zip(x.fields, y.fields)]
+        return z3.simplify(z3.And(*cs)) if cs else z3.BoolVal(True)
+    if isinstance(x, Struct) and isinstance(y, Struct):
+        rt, _ = it.runtime_type(x)
+        cands = it.prog.traitm.get(('PartialEq', rt, 'eq'))
+        if cands and len(cands) == 1:
+            return it.run_fn(cands[0], [Ref(Cell(x)), Ref(Cell(y))])
+        cs = [struct_eq(it, f, g) for f, g in zip(x.fields, y.fields)]
+        return z3.simplify(z3.And(*cs)) if cs else z3.BoolVal(True)
+    if isinstance(x, (Slice, Buf)) and isinstance(y, (Slice, Buf)):
+        return z3.simplify(s_eq(as_slice(it, x), as_slice(it, y)))
+    if z3.is_expr(x) and z3.is_expr(y):
+        return z3.simplify(x == y)
+    raise Unsupported('structural equality on %r / %r' % (x, y))
 
 
 def f32_cmp(it, x, y, m):
